@@ -118,6 +118,25 @@ def run(tier):
                'module': 'RelayClient', 'expect_violation': ['C11_Class', 'C11_NoSpuriousFailure', 'C11_OwnClass', 'C11_MailVerdict'],
                'cfg': flow.write_cfg(wd, 'rc2_kf3.cfg', behav.RC_CFG % dict(nr=1, lmtp='TRUE', pipe='FALSE', kf1='FALSE', kf2='FALSE', kf3='TRUE',
                                                                           nmsg=2, emit='', own='INVARIANT C11_OwnClass'))})
+    HC_CFG = """SPECIFICATION FairSpec
+CONSTANTS
+  NReq = 3
+  KeepAlive = %s
+  KF_NoResultOnError = %s
+  KF_BodyNeverRead = %s
+INVARIANT C19_NoForeignFailure
+INVARIANT C11_DeliveredImpliesAccepted
+INVARIANT C11_Class
+PROPERTY C11_TotalResult
+CHECK_DEADLOCK FALSE
+"""
+    for ka in ('TRUE', 'FALSE'):
+        mc.append({'name': 'HttpClient: three requests, keep-alive %s, every peer reaction (status with/without body, garbage, close, silence)' % ka,
+                   'module': 'HttpClient', 'cfg': flow.write_cfg(wd, 'hc_%s.cfg' % ka, HC_CFG % (ka, 'FALSE', 'FALSE'))})
+    mc.append({'name': 'deviation KF_NoResultOnError (D13 as found): TLC must find the request that never gets a result', 'module': 'HttpClient',
+               'cfg': flow.write_cfg(wd, 'hc_kf13.cfg', HC_CFG % ('TRUE', 'TRUE', 'FALSE')), 'expect_violation': ['temporal']})
+    mc.append({'name': 'deviation KF_BodyNeverRead (D29 as found): TLC must find the accepted request reported as failed', 'module': 'HttpClient',
+               'cfg': flow.write_cfg(wd, 'hc_kf29.cfg', HC_CFG % ('TRUE', 'FALSE', 'TRUE')), 'expect_violation': ['C19_NoForeignFailure']})
     return flow.standard(
         'C19', tier, mc, 'c19', 'Trace_Pool', 'Trace_Pool.cfg', [canary_bound, canary_other_result, canary_stranded, canary_foreign_failure],
         extras=[{'driver': 'c11m', 'module': 'Trace_Pool', 'cfg': 'Trace_Pool.cfg', 'args': (behfile,)}],
